@@ -219,7 +219,8 @@ func stepFamily(isCtx bool) *family {
 				cfg["forward_cookies"] = takeList(fwdCookiePool, sc.FC)
 			}
 		} else {
-			cfg["forward_response_headers_to_upstream"] = []any{"X-Authz-Digest"}
+			// the name as an operator may also write it (header names are case-insensitive)
+			cfg["forward_response_headers_to_upstream"] = []any{x(sc.NH%2 == 1, "x-authz-digest", "X-Authz-Digest")}
 		}
 
 		return MechSpec{Kind: kind, ID: id, Type: typ, Config: cfg}
